@@ -40,6 +40,7 @@ def run(rep: Report, tier: str) -> None:
 	rule_h(rep, idx, nm)
 	rule_this_var_depth(rep, idx)
 	rule_number_kinds(rep, idx, nm, gm)
+	rule_position_tests(rep, idx, nm)
 
 
 def py_key(tok: str, kind: str) -> str:
@@ -726,6 +727,8 @@ def rule_number_kinds(rep: Report, idx: SourceIndex, nm: NodeModel, gm: GrammarM
 					self.generic_visit(n)
 					if unparse(n.func).endswith('match_terminal'):
 						tags = next((kw.value for kw in n.keywords if kw.arg == 'allow_tags'), n.args[1] if len(n.args) > 1 else None)
+						if isinstance(tags, ast.Name):
+							tags = deref(mf.node, tags)  # `integer_tags = [...]` before the return
 						if isinstance(tags, (ast.List, ast.Tuple)) and all(isinstance(x, ast.Constant) for x in tags.elts):
 							return ast.Constant(value=term in [x.value for x in tags.elts])
 					return n
@@ -740,3 +743,39 @@ def rule_number_kinds(rep: Report, idx: SourceIndex, nm: NodeModel, gm: GrammarM
 			r.skip(f'number:{text}', (gm.relpath, 1), f'a match_feature of {[c.name for c in classes]} is outside the evaluated subset')
 			continue
 		r.check(chosen == want, f'number:{text}', classes[0].where, f'the literal `{text}` (terminal {term}) is resolved to {chosen}: CPython parses it as a {type(ast.literal_eval(text)).__name__} — Constant({text}) — so the node tree has an {chosen} where the reference tree has a {want} (and `scale = {text}` is declared `int scale`)', f'{text}: {term} -> {chosen}')
+
+
+def rule_position_tests(rep: Report, idx: SourceIndex, nm: NodeModel) -> None:
+	"""Whether a `string` entry is a DocString is a question about its POSITION (an expression statement directly in a block), as is every other
+	classification by context: the tests name a definite place on the entry path (the parent tag, an index from the end). A membership test over the
+	whole path — `path.contains('block')`, `'block' in path.elements` — holds for everything BELOW such a place: every triple-quoted string used as a
+	value anywhere inside a function body becomes a DocString (CPython: a plain Constant) and its text is rendered as a comment. Expected count on the
+	tree: zero; the recogniser runs on a positive example on every run."""
+	r = rep.rule('C02/classification-tests-name-a-position', 'no match_feature (nor DeclableMatcher test) decides by membership of a tag anywhere on the entry path (EntryPath.contains, `tag in <path>.elements`)', floor=0)
+
+	def sites(tree: ast.AST):
+		for n in ast.walk(tree):
+			if isinstance(n, ast.Call) and isinstance(n.func, ast.Attribute) and n.func.attr == 'contains' and n.args and isinstance(n.args[0], ast.Constant) and isinstance(n.args[0].value, str) and 'path' in unparse(n.func.value):
+				yield n
+			elif isinstance(n, ast.Compare) and len(n.ops) == 1 and isinstance(n.ops[0], (ast.In, ast.NotIn)) and isinstance(n.left, ast.Constant) and isinstance(n.left.value, str) and unparse(n.comparators[0]).endswith('.elements') and 'path' in unparse(n.comparators[0]):
+				yield n
+	fixture = ast.parse("def match_feature(cls, via):\n\treturn via._full_path.contains('block') or 'block' in via._full_path.de_identify().elements\n")
+	if len(list(sites(fixture))) != 2:
+		raise AnalysisError('C02/classification-tests-name-a-position: the recogniser no longer matches its positive example')
+	n_ = 0
+	for c in nm.classes + [nm.node_cls]:
+		for name, defs in c.methods.items():
+			if name != 'match_feature':
+				continue
+			for f in defs:
+				for n in sites(f.node):
+					n_ += 1
+					r.violate(f'{c.name}.match_feature:{unparse(n)[:40]}', (f.module.relpath, n.lineno), f'{c.name}.match_feature decides with `{unparse(n)[:70]}`: true for an entry ANYWHERE below such a tag, not for one at a definite position — every `{c.name}` candidate inside a function / class / flow body qualifies (a triple-quoted string used as a value becomes a DocString, CPython has a Constant), and the classes listed after {c.name} for the tag are never asked', unparse(n)[:100])
+	dm = idx.mod('rogw/tranp/syntax/node/definition/primary.py').cls('DeclableMatcher')
+	for defs in (dm.methods.values() if dm else []):
+		for f in defs:
+			for n in sites(f.node):
+				n_ += 1
+				r.violate(f'DeclableMatcher.{f.name}:{unparse(n)[:40]}', (f.module.relpath, n.lineno), f'DeclableMatcher.{f.name} decides with `{unparse(n)[:70]}`, a test over the whole entry path instead of a definite position', unparse(n)[:100])
+	if n_ == 0:
+		r.ok('no-membership-tests', None, message='no classification test ranges over the whole entry path')
